@@ -137,3 +137,14 @@ claim("C09",
       "is entered iff the host names no key or a different one.",
       "Trusts rustc MIR + extractor; convergence after arbitrary histories and faults is not decided.",
       "DESIGN.md §5 C09")
+
+claim("C16",
+      "actor-arm mutation inventory (OR / AND-NOT only) + who-may-call and constant pairing + guard dominance + rename-target provenance",
+      "Decides the schedule-independent clauses: the readiness flags are one actor-task local mutated only by |= and &= ! with the "
+      "post-value returned (no lost update in any arrival order); each reporter passes its own flag from its own module, ALL_READY is "
+      "the OR of the three single bits, the error text names a module exactly on its flag's missing edge; finished is set only behind "
+      "contains(ALL_READY) of the value returned by the same round-trip, in the deadline handler, or from a reset's returned value; "
+      "status.tag is only ever the target of a rename from the freshly written temp file. Tick comparisons under arbitrary tick "
+      "sequences are not decided.",
+      "Trusts tokio channel semantics, fs::rename atomicity (OS), bitflags-generated operators, rustc MIR + extractor.",
+      "DESIGN.md §5 C16")
